@@ -861,10 +861,13 @@ def m_partial_eq(negate=False):
             b = _deref(interp, st, b)
         adt = t["callee"].get("self_adt")
         outs = []
-        if a[0] == "var" and b[0] == "var":
-            if a[3] in ((), None) and b[3] in ((), None) or a[2] != b[2]:
-                if a[2] != b[2] or (interp.world.adt(a[1]) and all(not v["fields"] for v in interp.world.adt(a[1])["variants"])):
-                    return [(st, B((a[2] == b[2]) != negate))]
+        if a[0] == "var" and b[0] == "var" and a[1] == b[1]:
+            if a[2] != b[2]:
+                return [(st, B(negate))]
+            ad = interp.world.adt(a[1])
+            fieldless = ad is not None and all(not v["fields"] for v in ad["variants"] if v["name"] == a[2])
+            if fieldless or (a[3] == () and b[3] == ()):
+                return [(st, B(not negate))]
         if is_const(a) and is_const(b):
             return [(st, B((a == b) != negate))]
         # one side is an enum symbol with finite domain: split it
@@ -1016,10 +1019,30 @@ def m_deref(interp, st, t, args, bb):
     return None
 
 
+def idx_name(v):
+    if v[0] == "i":
+        return str(v[1])
+    if v[0] == "sym":
+        return v[1]
+    return "expr"
+
+
+def m_index(interp, st, t, args, bb):
+    """container[index]: element reference for scalar indices, content alias for ranges"""
+    res = m_deref(interp, st, t, args, bb)
+    if res is None or len(args) < 2:
+        return res
+    ix = args[1]
+    if ix[0] in ("i", "sym", "expr"):
+        (s2, r), = res
+        return [(s2, ("ref", r[1] + (("f", "[%s]" % idx_name(ix)),)))]
+    return res
+
+
 def _coll_path(v):
     if v[0] == "ref":
         p = v[1]
-        if p and p[-1] == ("f", "<content>"):
+        while p and (p[-1] == ("f", "<content>") or (p[-1][0] == "f" and str(p[-1][1]).startswith("["))):
             p = p[:-1]
         return p
     return None
@@ -1131,10 +1154,10 @@ DEFAULT_MODELS = {
     "core::iter::traits::collect::IntoIterator::into_iter": m_identity,
     "*::Deref>::deref": m_deref,
     "*::DerefMut>::deref_mut": m_deref,
-    "*::Index<I>>::index": m_deref,
-    "*::IndexMut<I>>::index_mut": m_deref,
-    "core::ops::index::Index::index": m_deref,
-    "core::ops::index::IndexMut::index_mut": m_deref,
+    "*::Index<I>>::index": m_index,
+    "*::IndexMut<I>>::index_mut": m_index,
+    "core::ops::index::Index::index": m_index,
+    "core::ops::index::IndexMut::index_mut": m_index,
     "alloc::vec::Vec::as_mut_slice": m_deref,
     "alloc::string::String::as_bytes": m_deref,
     "core::str::<impl str>::as_bytes": m_deref,
@@ -1162,3 +1185,76 @@ DEFAULT_MODELS = {
     "*::Ord>::cmp": m_ord_cmp,
     "core::cmp::Ord::cmp": m_ord_cmp,
 }
+
+
+# ---------------------------------------------------------------------------------------------
+# loop header fixpoint over a finite set of header states
+# ---------------------------------------------------------------------------------------------
+
+def _finite(v):
+    if v[0] in ("i", "b", "ch", "s", "unit", "fn", "bytes", "ref"):
+        return True
+    if v[0] == "var":
+        return v[3] in ((), None) or all(_finite(x) for x in v[3] if isinstance(x, tuple)) if not (v[3] and len(v[3]) == 2 and v[3][0] == "symp") else False
+    if v[0] == "agg":
+        return all(_finite(x) for _, x in v[2])
+    return False
+
+
+def header_fixpoint(interp, header, h0_env, h0_cons, max_states=256, keep=None):
+    """All header states of the loop at `header` reachable from the initial header state, as a finite set.
+
+    A header state is the environment at the loop header.  After one abstract iteration, every
+    path whose value is still the initial one keeps it; a value that is finite (constant, variant,
+    reference) is kept as is (disjunctively); any other changed value becomes the loop variable
+    symbol `lv:<path>` (one per path: 'changed since the loop was entered').  Resolved constraints
+    (bool/variant/eq) of symbols are folded into the values, other constraints are dropped.
+    Returns (states, outcomes_by_state) where outcomes include continue ("stop" at header) and exits.
+    """
+    def canon_env(env, cons, base_env):
+        out = {}
+        for p, v in env.items():
+            if p[0][0] == "L" and len(p) >= 1:
+                pass
+            v2 = v
+            if v2[0] == "sym":
+                c = cons.get(v2[1])
+                if c and c[0] == "eq":
+                    v2 = c[1]
+                elif c and c[0] == "varis":
+                    v2 = ("var", c[1], c[2], None)
+            if keep is not None and not keep(p):
+                continue
+            b0 = base_env.get(p)
+            if v2 == b0 or v == b0:
+                out[p] = b0
+            elif _finite(v2):
+                out[p] = v2
+            else:
+                out[p] = SYM("lv:" + pstr(p))
+        return out
+
+    states = []
+    seen = set()
+    work = [dict(h0_env)]
+    results = []
+    base = dict(h0_env)
+    while work:
+        env = work.pop()
+        key = frozenset(env.items())
+        if key in seen:
+            continue
+        seen.add(key)
+        if len(seen) > max_states:
+            raise Undecided("loop header state explosion at bb%d" % header)
+        states.append(env)
+        outs = interp.run(header, env=env, cons=dict(h0_cons), stop_at_entry_again=True)
+        results.append((env, list(outs)))
+        for o in outs:
+            if o.kind == "stop" and o.info == header:
+                nenv = canon_env(o.env, o.cons, base)
+                # paths not mentioned any more fall back to the base value
+                for p, v in base.items():
+                    nenv.setdefault(p, v)
+                work.append(nenv)
+    return states, results
